@@ -49,6 +49,8 @@ PROFILES = {
                 "p_session_loss": 0.3},
     "timing": {"time": True, "ska": [0, 0, 1, 2, 4, 7, 12], "p_no_pingresp": 0.3, "w_poll": 16, "w_recv": 4,
                "p_cancel": 0.03, "calls": 30, "p_delay": 0.5},
+    "stall": {"time": True, "p_stall": 0.3, "p_pend": 0.35, "p_partial": 0.6, "ska": [0, 2, 4], "w_poll": 10, "calls": 30,
+              "p_cancel": 0.1, "p_delay": 0.3},
     "arena": {"payload_max": 180, "w_pub0": 6, "w_pub1": 5, "w_pub2": 4, "w_sub": 2, "w_unsub": 1, "w_poll": 6, "p_drop": 0.08,
               "p_session_loss": 0.03, "rm": [0, 8, 3], "calls": 40, "p_fail_ack": 0.02},
     "keepalive": {"time": True, "ska": [0, 0, 0, 3, 6, 8], "p_no_pingresp": 0.15, "w_poll": 16, "w_recv": 4, "p_cancel": 0.02,
@@ -71,6 +73,7 @@ COMMON = [
                {"rx": 256, "tx": 512, "client_id": b("ar2"), "ka": 0, "sei": 60}], 45, 450),
     ("timing", TIME_CFGS, 39, 650),
     ("keepalive", TIME_CFGS, 39, 650),
+    ("stall", [TIME_CFGS[2], TIME_CFGS[4], TIME_CFGS[6], TIME_CFGS[10]], 32, 320),
     ("wrap", [BASE_CFGS[4], BASE_CFGS[0]], 30, 300),
 ]
 
